@@ -46,7 +46,7 @@ def correspondence(ctx):
     frs = []
     for x, ln, o in zip(cases, lines, out):
         ev += 1
-        rep = dict(kind="monitor", op=ln[:400000], result=o[-300:])
+        rep = dict(kind="monitor", op=ln[:40000000], result=o[-300:])
         if o.startswith("err"):
             if "parameter" not in o:
                 ctx.violation("streaming compression failed: %s" % o, rep)
@@ -72,7 +72,7 @@ def correspondence(ctx):
     w = frames.parallel(lambda ch: frames.run_lines(exe, ch)[1], frames.split_chunks(["xxh " + frames.hx(x[:c]) for c, pr, fb, x, ln in pl], 16))
     for (c, pr, fb, x, ln), a, b, ww in zip(pl, m, cdec, w):
         ev += 2
-        rep = dict(kind="monitor", op=ln[:400000], consumed=c, produced=pr, lean_prefix_decoder=a, library_stream_decoder=b[:120], expected=ww)
+        rep = dict(kind="monitor", op=ln[:40000000], consumed=c, produced=pr, lean_prefix_decoder=a, library_stream_decoder=b[:120], expected=ww)
         if " ".join(b.split()[:3]) != ww:
             ctx.violation("flush reported complete after %d input bytes but the %d bytes emitted so far decode (library) to %r, expected %r" % (c, pr, " ".join(b.split()[:3]), ww), rep)
         elif a != ww:
@@ -100,7 +100,7 @@ def correspondence(ctx):
     hw = frames.parallel(lambda ch: frames.run_lines(exe, ch)[1], frames.split_chunks(["xxh " + frames.hx(c) for f, c in comps], 16))
     for (f, c), ln, r, mm, ww in zip(comps, hl, hres, hm, hw):
         ev += 1
-        rep = dict(kind="monitor", op=ln[:400000], result=r[:300], model_hints=mm)
+        rep = dict(kind="monitor", op=ln[:40000000], result=r[:300], model_hints=mm)
         if not r.startswith("ok") or "overask=1" in r or ("consumed=%d " % len(f)) not in r or "lastret=0" not in r or " ".join(r.split()[:3]) != ww:
             ctx.violation("decoder fed exactly the sizes it asks for did not consume exactly the frames: %s (stream of %d bytes)" % (r[:200], len(f)), rep)
         elif (" %d" % (1 << 24)) in ln[-24:] and mm.startswith("ok"):
@@ -127,7 +127,7 @@ def correspondence(ctx):
     for ln, r, ww in zip(al, ares, aw):
         ev += 1
         if " ".join(r.split()[:3]) != ww or "hintsBeyond=1" in r:
-            ctx.violation("after an abandoned frame and a reset, a valid frame fed by following the decoder's requests: %s (expected %s)" % (r[:120], ww), dict(kind="monitor", op=ln[:400000], result=r[:300]))
+            ctx.violation("after an abandoned frame and a reset, a valid frame fed by following the decoder's requests: %s (expected %s)" % (r[:120], ww), dict(kind="monitor", op=ln[:40000000], result=r[:300]))
             break
     # deterministic model of ZSTD_decompressStream (Model/DStream.lean; theorems dstream_progress / dstream_no_livelock / dstream_calls_bounded):
     # per-call consumed / produced / exact return value (= the input hint) against the real code, hinted feeding included
